@@ -413,6 +413,11 @@ func GenEngineScript(r *Rng, o EngineGenOpts, hist map[string]int) []string {
 			add("files")
 			add("close")
 			add("files")
+			if o.Backups && r.Chance(1, 3) {
+				// a cold data file moved to another volume and linked back: the engine reads it through the link
+				add("linkfile %d", r.Intn(8))
+				hist["data_file_is_a_symbolic_link"]++
+			}
 			c = genCfg(r, o, hist)
 			add("open %s", c)
 			inspect()
